@@ -600,22 +600,25 @@ Lemma self_consistent_partial :
   (forall y0 yr x0 oox x, is_derive (fun t => k_stepAny ROps y0 yr x0 oox t) x (k_dstepAny ROps yr x0 oox x) /\
      is_derive (fun t => k_dstepAny ROps yr x0 oox t) x (k_d2stepAny ROps yr x0 oox x) /\
      continuous (fun t => k_d2stepAny ROps yr x0 oox t) x).
-Proof. repeat split.
+Proof.
+  Ltac csplit := repeat match goal with |- _ /\ _ => split end.
+  csplit.
   - apply Polynomial_deriv_every_order.
   - apply Sinusoid_deriv_every_order.
   - intros; apply Linear_partials; auto.
   - apply Constant_partials.
-  - apply Step_deriv1_is_derive; auto.
-  - apply Step_deriv2_is_derive; auto.
-  - apply Step_deriv2_continuous; auto.
-  - intros; apply Step_deriv3_is_derive; auto.
+  - intros y0 y1 x0 x1 x Hne. csplit.
+    + apply Step_deriv1_is_derive; auto.
+    + apply Step_deriv2_is_derive; auto.
+    + apply Step_deriv2_continuous; auto.
+    + intros; apply Step_deriv3_is_derive; auto.
   - intros; apply Step_monotone; auto.
-  - intros; apply Step_end_values; auto.
-  - intros; apply Step_end_values; auto.
+  - intros y0 y1 x0 x1 x Hne. csplit; intros; apply Step_end_values; auto.
   - apply stepUp_monotone.
-  - apply dstepAny_is_derive.
-  - apply d2stepAny_is_derive.
-  - apply d2stepAny_continuous.
+  - intros. csplit.
+    + apply dstepAny_is_derive.
+    + apply d2stepAny_is_derive.
+    + apply d2stepAny_continuous.
 Qed.
 
 (** ** non-vacuity / sanity: concrete instances *)
